@@ -780,7 +780,7 @@ func c20Grid() error {
 		}
 		n++
 	}
-	for _, mm := range []string{"-", "", "1048576", "1", "x", "1e6", "0x10"} {
+	for _, mm := range []string{"-", "", "1048576", "1", "x", "1e6", "0x10", "2147483648", "1099511627776"} {
 		for _, au := range []string{"-", "", "0", "1", "2", "x", "-1", "true", "01", "+1"} {
 			for _, si := range []string{"-", "", "anyvalue", "exactflags", "alike"} {
 				r := c20Req{Method: "GET", Maxmem: opt(mm), Augment: opt(au), Similarity: opt(si)}
